@@ -504,11 +504,20 @@ class World:
                                [[self.talias(r.hash), r.index] for r in v.output_references]]
                               for k, v in pk.items() if v.output_references or v.value)
                 bals.append([self.balias(h), rows])
-        try:
-            forks = sorted([self.balias(t.hash()), self.balias(l.hash())] for (t, l) in cs.forks())
-        except Exception:
-            forks = [[-2, -2]]
-        p = {"n": len(ids), "forks": forks, "head": self.balias(cs.current_chain_hash) if cs.current_chain_hash else -1,
+        # forks() walks parent links by claimed heights: only defined (and terminating) on trees whose heights are
+        # parent + 1 throughout -- the domain of C04.  Elsewhere (blocks below the checkpoint horizon) it is not called.
+        consistent = all(b.previous_block_hash == b"\x00" * 32 or
+                         (b.previous_block_hash in cs.block_by_hash and cs.block_by_hash[b.previous_block_hash].height + 1 == b.height
+                          and b.hash() == h_)
+                         for h_, b in cs.block_by_hash.items())
+        if consistent:
+            try:
+                forks = sorted([self.balias(t.hash()), self.balias(l.hash())] for (t, l) in cs.forks())
+            except Exception:
+                forks = [[-2, -2]]
+        else:
+            forks = [[t_, t_] for t_ in sorted(self.balias(h) for h in cs.heads.keys())]
+        p = {"n": len(ids), "forks": forks, "forks_defined": consistent, "head": self.balias(cs.current_chain_hash) if cs.current_chain_hash else -1,
              "tips": sorted(self.balias(h) for h in cs.heads.keys()),
              "utxo": utxo, "index": index, "bal": bals, "walletbal": -1, "walletkeys": []}
         return p
